@@ -472,8 +472,22 @@ func (ex *Executor) typeAssert(st *State, fr *frame, x *ssa.TypeAssert) Value {
 			ok, res = TFalse, ex.zero(at)
 		}
 	case *Term:
+		if iv.S != SInt {
+			// an unboxed scalar flowing through an interface-typed register
+			if s, isScalar := scalarSort(at); isScalar && s == iv.S {
+				ok, res = TTrue, iv
+			} else if _, isIface := at.Underlying().(*types.Interface); isIface {
+				ok, res = TTrue, iv
+			} else {
+				ok, res = TFalse, ex.zero(at)
+			}
+			break
+		}
 		tag := typeTag(at)
 		ok = App("is!"+tag, SBool, iv)
+		if types.Identical(x.X.Type(), at) {
+			ok = Neq(iv, IntLit(0)) // same static type: only a nil check
+		}
 		st.Fact(Implies(ok, Neq(iv, IntLit(0))))
 		holds := ex.TypeHolds != nil && ex.TypeHolds(at)
 		if ex.AssumeNonNil != nil {
@@ -510,7 +524,7 @@ func (ex *Executor) typeAssert(st *State, fr *frame, x *ssa.TypeAssert) Value {
 		ok, res = TTrue, v
 	}
 	if x.CommaOk {
-		if rt, isT := res.(*Term); isT && ok.String() == Neq(rt, IntLit(0)).String() {
+		if rt, isT := res.(*Term); isT && rt.S == SInt && ok.String() == Neq(rt, IntLit(0)).String() {
 			// ok <=> res != nil: ite(ok, res, nil) == res
 		} else if ok != TTrue {
 			res = ex.iteValue(st, ok, res, ex.zero(at))
